@@ -372,14 +372,10 @@ def r4_replay(ck, rule="C04-R4"):
     mcalls = calls_named(tah, "libpatch::patch::try_apply_hunk::matches")
     ck.floor(rule, "calls of the matches helper in try_apply_hunk", len(mcalls), 2)
     inloop = [(bb, t) for bb, t, c in mcalls if cfg.innermost_loop_of(tah, bb)]
+    normal_edges = {sw["edges"]["Normal"] for sw in sws if "Normal" in sw["edges"]}
     for bb, t in inloop:
-        # every path into the scan loop leaves the rollback early-return behind: a Rollback discriminant test with return dominates
-        ok = False
-        for sw in sws:
-            rb = sw["edges"].get("Rollback")
-            if rb and bb not in cfg.reachable(tah, [rb[1]]) and cfg.dominates(tah, sw["bb"], bb):
-                ok = True
-        ck.require(ok, rule, "rollback never searches for another position",
+        r = cfg.reachable(tah, 0, disabled=normal_edges)
+        ck.require(bool(sws) and bb not in r, rule, "rollback never searches for another position",
                    "the position scan is reachable in rollback mode", tah.where(t))
     # (b) apply_modify: fuzz levels in rollback mode are exactly the recorded level
     region, normal, sws = rollback_regions(am)
